@@ -240,7 +240,8 @@ func (P) Gen(r *core.Rand, tier string, emit func([]string)) {
 		emit(ops)
 	}
 	if raceInTier(tier) {
-		emit([]string{"race A"})
-		emit([]string{"race B"})
+		for _, m := range []string{"A", "B", "P", "Q"} {
+			emit([]string{"race " + m})
+		}
 	}
 }
